@@ -860,8 +860,11 @@ pub mod client {
                 _ => {}
             }
 
+            // Note: the difference is `None` unless `not_after` is strictly greater than
+            // `not_before`; a window made of a single instant is a period of zero length.
             let validity_period = x509.validity().not_after - x509.validity.not_before;
-            if !matches!(validity_period, Some(x) if x <= Self::SELF_MAX_VALIDITY) {
+            let zero_length = x509.validity().not_after == x509.validity().not_before;
+            if !zero_length && !matches!(validity_period, Some(x) if x <= Self::SELF_MAX_VALIDITY) {
                 return Err(rustls::CertificateError::UnknownIssuer.into());
             }
 
